@@ -1,7 +1,7 @@
 CONSTANTS
   Resources = {"Ra1", "Ra2", "Rx", "Ry", "Rr", "Ru", "Rab", "Rar", "Rax", "Rxa", "Raa", "Rua", "Rf11"}
   RemoveArgs = {"a", "a:1", "a:*", "x:1", "*", "r", "zz", "y:1 a:2", "*:1", "a*", "ab", "u:2 r:1", "a x:*", "f", "y"}
-  IliFiles = {"f1", "f2", "f3"}
+  IliFiles = {"f1", "f2", "f3", "f4"}
   Depth = 14
 SPECIFICATION Spec
 CHECK_DEADLOCK FALSE
